@@ -325,7 +325,7 @@ def run_behaviours(exe, scripts, tag, chunk=400, per_timeout=20, valgrind=False,
                 kind = "exit"
             elif rc == -999:
                 kind = "hang"
-            g["crash"] = {"kind": kind, "rc": rc, "detail": err[-3000:]}
+            g["crash"] = {"kind": kind, "rc": rc, "detail": err[:3000]}
             local[bid] = g
             broken = True
         if rc == 70 and not broken:
@@ -419,6 +419,16 @@ class Verdict:
                 print("VIOLATION property=%s replay=%s" % (self.prop, path))
                 print("  signature=%s" % sig)
                 print("  %s" % what[:600])
+        if os.environ.get("VERIF_DEBUG"):
+            import collections
+            c = collections.Counter()
+            ex = {}
+            for sig, what, _ in self.violations:
+                key = re.sub(r"[0-9]+", "N", what.split("::")[-1])[:160]
+                c[key] += 1
+                ex.setdefault(key, what[:300])
+            for k, n in c.most_common(40):
+                print("DEBUG %6d  %s\n              e.g. %s" % (n, k, ex[k]))
         cov = self.cov
         if rule:
             cov["rule"] = rule
